@@ -237,6 +237,10 @@ class TypeChecker:
                 default_block = True
             else:
                 self.check_expr(option_val)
+                if not self.context.equal_types("int", option_val.typ):
+                    raise SemanticError(
+                        "Case value must be integer", option_val.loc
+                    )
 
         if not default_block:
             raise SemanticError(
